@@ -311,6 +311,114 @@ def part_builtins(rep, per_fn):
     rep.note("builtins_called", len(seen_fn))
 
 
+# ------------------------------------------------------------------------------------------------
+# ill-typed operands inside *compiled functions* (the operators that have their own opcode / native helper)
+
+INLINE_OPS = [("+", 2), ("-", 2), ("*", 2), ("/", 2), ("<", 2), ("<=", 2), (">", 2), (">=", 2), ("=", 2), ("-", 1), ("+", 3), ("*", 3),
+              ("car", 1), ("cdr", 1), ("cons", 2), ("null?", 1), ("not", 1), ("box", 1), ("unbox", 1), ("set-box!", 2), ("vector-ref", 2),
+              ("vector-set!", 3), ("list-ref", 2), ("eq?", 2), ("equal?", 2), ("first", 1), ("rest", 1), ("cadr", 1), ("length", 1),
+              ("quotient", 2), ("modulo", 2), ("remainder", 2), ("hash-ref", 2), ("string-length", 1), ("string-append", 2),
+              ("vector-length", 1), ("list-tail", 2), ("append", 2), ("reverse", 1), ("abs", 1), ("exact->inexact", 1), ("zero?", 1),
+              ("even?", 1), ("add1", 1), ("sub1", 1), ("number->string", 1), ("symbol->string", 1), ("char->integer", 1), ("apply", 2)]
+ILL_VALUES = ["'a", '"s"', "#\\c", "(list)", "(list 1 2)", "(vector 1 2)", "1.5", "1/2", "100000000000000000000", "(void)", "#t", "(box 1)",
+              "(hash)", "0", "-1", "9223372036854775807", "(lambda (q) q)", "(cons 1 2)"]
+LITS = ["1", "0", "2", "-1"]
+
+
+def gen_compiled_programs(r, n):
+    """n module texts, each: a function applying one inlinable operator to its parameter(s) in some operand position and
+    code shape, a compiled caller that traps errors, and calls with every ill-typed value."""
+    out = []
+    shapes = ["direct", "if-test", "loop", "let", "nested", "tail-after-effect", "via-map", "via-apply", "second-param", "late-param", "closure"]
+    for i in range(n):
+        op, ar = INLINE_OPS[i % len(INLINE_OPS)]
+        shape = shapes[(i // len(INLINE_OPS)) % len(shapes)] if i < len(INLINE_OPS) * len(shapes) else r.choice(shapes)
+        pos = r.randrange(ar)
+        lit = r.choice(LITS)
+        args = [lit] * ar
+        args[pos] = "x"
+        if ar >= 2 and r.random() < 0.3:
+            args[(pos + 1) % ar] = "x"
+        call = "(%s %s)" % (op, " ".join(args))
+        params = "x"
+        actual = lambda v: v
+        if shape == "direct":
+            body = call
+        elif shape == "if-test":
+            body = "(if %s 'yes 'no)" % call
+        elif shape == "loop":
+            body = "(let loop ((i 0) (acc x)) (if (< i 3) (loop (+ i 1) %s) acc))" % call.replace("x", "acc")
+        elif shape == "let":
+            body = "(let ((t %s)) (list t t))" % call
+        elif shape == "nested":
+            body = "(list %s %s)" % (call, "(%s %s)" % (op, " ".join(args[::-1])))
+        elif shape == "tail-after-effect":
+            body = "(begin (set! cf-count (+ cf-count 1)) %s)" % call
+        elif shape == "via-map":
+            body = "(map (lambda (y) %s) (list x x))" % call.replace("x", "y")
+        elif shape == "via-apply":
+            body = "(apply (lambda (y z) %s) (list x 1))" % call.replace("x", "y")
+        elif shape == "second-param":
+            params = "w x"
+            body = "(list w %s)" % call
+            actual = lambda v: "7 " + v
+        elif shape == "late-param":
+            params = "p0 p1 p2 p3 p4 x"
+            body = "(list p4 %s)" % call
+            actual = lambda v: "0 1 2 3 4 " + v
+        else:  # closure
+            body = "((lambda () %s))" % call
+        L = ["(define cf-count 0)", "(define (cf %s) %s)" % (params, body),
+             "(define (cf-try %s) (with-handler (lambda (e) 'err) (cf %s)))" % (params, params)]
+        vals = r.sample(ILL_VALUES, 8)
+        for v in vals:
+            L.append("(verif-emit (cf-try %s))" % actual(v))
+        L.append("(verif-emit 'survived)")
+        L.append("(cf %s)" % actual(r.choice(vals)))     # the error (if any) propagates to the host
+        out.append(("%s/%d pos %d %s" % (op, ar, pos, shape), "\n".join(L)))
+    return out
+
+
+def part_compiled(rep, n):
+    r = core.rng("C07", "compiled")
+    progs = gen_compiled_programs(r, n)
+    outcomes = {"value": 0, "error": 0}
+    for mode, copts, env in (("module", {"as_module": True}, None), ("top-level", {}, None), ("module, JIT off", {"as_module": True}, {"STEEL_JIT": "false"})):
+        cases = []
+        for i, (desc, src) in enumerate(progs):
+            c = {"id": "c%d" % i, "units": [src], "timeout_ms": 30000, "mem_mb": 4096}
+            c.update(copts)
+            cases.append(c)
+        results, m = core.run_cases(cases, env=env, tag="c07c")
+        for e in m["harness_errors"]:
+            rep.inconclusive_note("harness: %s" % e)
+        for i, (desc, src) in enumerate(progs):
+            res = results.get("c%d" % i)
+            if res is None:
+                continue
+            rep.count()
+            rep.nontrivial((desc, mode))
+            op = desc.split("/")[0]
+            if res["status"] not in ("ok", "timeout"):
+                sig = crash_sig({"died": res["status"], "stderr": res.get("stderr_tail", "")}, src)
+                if sig:
+                    rep.violation("C07 compiled function applying %s to an ill-typed operand (%s): %s" % (op, mode, sig),
+                                  "program=%s\nstderr=%s" % (src, res.get("stderr_tail", "")[-300:]), {"kind": "compiled", "src": src, "opts": copts, "env": env})
+                continue
+            u = (res["units"] or [{}])[0]
+            if u.get("panics"):
+                rep.violation("C07 compiled function applying %s to an ill-typed operand (%s): panic at %s" % (op, mode, core.panic_sig(tuple(u["panics"][0]))),
+                              "program=%s" % src, {"kind": "compiled", "src": src, "opts": copts, "env": env})
+                continue
+            em = u.get("emits") or []
+            outcomes["error"] += sum(1 for e in em if e == 'y:"err"')
+            outcomes["value"] += sum(1 for e in em if e not in ('y:"err"', 'y:"survived"'))
+            if 'y:"survived"' not in em and res["status"] == "ok" and u.get("kind") not in (None, "FreeIdentifier", "BadSyntax", "ArityMismatch"):
+                # an error escaped the handler of cf-try: the remaining calls were not made (still no crash)
+                rep.add("compiled_programs_ended_early")
+    rep.note("compiled_function_call_outcomes", outcomes)
+
+
 def part_texts(rep, n):
     r = core.rng("C07", "texts")
     cases = []
@@ -401,8 +509,11 @@ def main(tier):
         "deep nesting, valid programs), singly and as 2-4 unit histories on one engine, each followed by the probe; "
         "builtins: every procedure bound in a fresh engine except a deny-list of externally effectful/blocking ones, "
         "called with tuples drawn from a typed pool (every value kind x boundary magnitudes), directly / via apply / "
-        "via a parameter; distinct = by text or by (procedure, argument kinds)")
+        "via a parameter; compiled: functions that apply each operator with its own opcode / native helper to an ill-typed "
+        "run-time operand in 11 code shapes, compiled as a module (native code), at the top level and with the JIT off, called "
+        "from a compiled caller; distinct = by text or by (procedure, argument kinds) or by (operator, position, shape, mode)")
     part_texts(rep, ntext)
+    part_compiled(rep, 1100 if tier == "quick" else 20000)
     part_builtins(rep, per_fn)
     rep.assumptions += ["allocation-failure aborts under the 4-6 GB address-space cap and time-outs are not counted as "
                         "crashes (inconclusive for that input)",
@@ -414,7 +525,14 @@ def main(tier):
 
 def replay(path):
     d = json.load(open(path))["replay"]
-    if d.get("kind") == "builtin":
+    if d.get("kind") == "compiled":
+        c = {"id": "r", "units": [d["src"]], "timeout_ms": 30000}
+        c.update(d.get("opts") or {})
+        res, _ = core.run_cases([c], env=d.get("env"), shards=1)
+        r = res["r"]
+        print(json.dumps(r, indent=1)[:3000])
+        bad = r["status"] not in ("ok", "timeout") or any(u.get("panics") for u in r["units"])
+    elif d.get("kind") == "builtin":
         outs = core.run_units([d["src"]], per=1, prelude=BUILTIN_SETUP, tag="c07r")
         print(outs[0])
         bad = outs[0] is None or "died" in outs[0] or outs[0].get("panic")
